@@ -108,7 +108,7 @@ def _out_shapes(desc):
 def _slim(case):
     c = dict(case)
     p = dict(c["program"])
-    p.pop("deps", None)
+    # (the generator's symbolic `deps` stay in the recorded case: replays need them)
     c["program"] = p
     return c
 
